@@ -153,7 +153,10 @@ fn check_inner(obs: &Observation, parse: &Parse, cx: &Ctx<'_>, at: &mut usize) -
                 if !ef.content.starts_with(&delivered) {
                     let (sig, why) = if delivered.starts_with(&ef.content) && ef.complete {
                         let extra = &delivered[ef.content.len()..];
-                        if extra.starts_with(b"\r\n--") || b"\r\n--".starts_with(extra) {
+                        if extra == b"\r\n--" && &bytes[..] == b"\r\n--" {
+                            // exactly the 4 bytes CR LF - - of the delimiter, as one chunk
+                            ("content-extended:CRLF-dashes-of-delimiter-delivered-as-one-content-chunk", "the CRLF-- that starts the delimiter ending the part was delivered as a content chunk")
+                        } else if extra.starts_with(b"\r\n--") || b"\r\n--".starts_with(extra) {
                             ("content-extended:delimiter-bytes-delivered-as-content", "bytes of the delimiter that ends the part were delivered as content")
                         } else {
                             ("content-extended:other", "more bytes than the part contains were delivered")
@@ -466,7 +469,7 @@ pub fn judge(obs: &Observation, parses: &[Parse], cx: &Ctx<'_>) -> Result<(), Fa
     let precise = matches!(
         f.signature.as_str(),
         "content-shortened:field-ended-at-bare-CR-dashes-boundary"
-            | "content-extended:delimiter-bytes-delivered-as-content"
+            | "content-extended:CRLF-dashes-of-delimiter-delivered-as-one-content-chunk"
             | "hang:eof-in-content-without-content-length:unresolved-CR-lookahead"
     );
     let upto = f.at.min(obs.events.len());
@@ -493,7 +496,7 @@ pub fn judge(obs: &Observation, parses: &[Parse], cx: &Ctx<'_>) -> Result<(), Fa
                 f.signature,
                 trig.join(", ")
             );
-            f.signature = format!("after-skipped-field:known-triggers={}", trig.join("+"));
+            f.signature = "after-skipped-field:input-contains-trigger-of-known-read_stream-defect".to_string();
         }
     }
     Err(f)
